@@ -31,14 +31,26 @@ BUDGET = {
 }
 PROPS = [f"{k}_{c}" for k in ("node", "edge", "face") for c in ("lon", "lat", "x", "y", "z")]
 PROPS = [p for p in PROPS]  # 15 + normalize handled separately
-SRC = ["topo-lonlat", "topo-lonlat-360", "verts-xyz", "verts-lonlat", "mpas-both", "mpas-xyz-only", "mpas-lonlat-only", "topo-centres"]
+SRC = ["topo-lonlat", "topo-lonlat-360", "verts-xyz", "verts-lonlat", "mpas-both", "mpas-xyz-only", "mpas-lonlat-only", "topo-centres", "topo-int-xyz"]
+
+# solids whose corners have integer Cartesian coordinates (a source may store them as integers): cube, octahedron
+_INT_SOLIDS = {
+    "cube": ([(1, 1, 1), (-1, 1, 1), (-1, -1, 1), (1, -1, 1), (1, 1, -1), (-1, 1, -1), (-1, -1, -1), (1, -1, -1)],
+             [[0, 1, 2, 3], [7, 6, 5, 4], [0, 3, 7, 4], [1, 5, 6, 2], [0, 4, 5, 1], [3, 2, 6, 7]]),
+    "octahedron": ([(2, 0, 0), (0, 2, 0), (-2, 0, 0), (0, -2, 0), (0, 0, 2), (0, 0, -2)],
+                   [[0, 1, 4], [1, 2, 4], [2, 3, 4], [3, 0, 4], [1, 0, 5], [2, 1, 5], [3, 2, 5], [0, 3, 5]]),
+}
 
 
 @st.composite
 def _case(draw, tier):
     src = draw(sampled_from(SRC))
     big = tier != "quick"
-    if src.startswith("mpas"):
+    if src == "topo-int-xyz":
+        which = draw(sampled_from(["cube", "octahedron"]))
+        pts, fcs = _INT_SOLIDS[which]
+        mesh = {"nodes": [list(S.xyz2ll(S.normalize(tuple(float(c) for c in p)))) for p in pts], "faces": [list(f) for f in fcs], "family": "int-" + which, "int_xyz": [list(p) for p in pts], "int_dtype": draw(sampled_from(["int64", "int32"]))}
+    elif src.startswith("mpas"):
         mesh = draw(meshgen.voronoi_mesh(6, 26 if big else 14))
     else:
         mesh = draw(meshgen.any_mesh(max_pts=30 if big else 14, tiny=True, orphans=True, polar=True))
@@ -124,6 +136,12 @@ def _build(case):
             info["supplied"] |= {"node_xyz", "face_xyz", "edge_xyz"}
         info["face_truth"] = winfo["xyz_c"]
         info["edge_truth"] = [(refmodel.edge_key(a, b), winfo["xyz_e"][k]) for k, (a, b) in enumerate(winfo["edge_nodes"])]
+    elif src == "topo-int-xyz":
+        ixyz = np.asarray(mesh["int_xyz"], dtype=mesh.get("int_dtype", "int64"))
+        g = ux.Grid.from_topology(nodes[:, 0].copy(), nodes[:, 1].copy(), build.padded_faces(mesh), fill_value=FILL,
+                                  node_x=ixyz[:, 0].copy(), node_y=ixyz[:, 1].copy(), node_z=ixyz[:, 2].copy())
+        info["supplied"] = {"node_ll", "node_xyz"}
+        info["radius"] = float(np.linalg.norm(ixyz[0].astype(float)))
     elif src == "topo-centres":
         kw = {}
         fc = writers.face_centres_xyz(mesh)
